@@ -121,9 +121,29 @@ def gen_state(rng, n, tier):
             bstate.update(blkB)
             base += ops_of(blkB, list(blkB)) + ["finalise", "flush", "commit 2"]
             forced = {(a, "k", k): v}
+        # an account of the committed base that was emptied again (balance back to 0, nonce 0, no code), and a touch of it without a
+        # net change that every variant of this history makes right before the change set: whether such an account still has a
+        # record must not show in the root, on a running node as on one that reopened or dropped its caches
+        touch = []
+        emptied = None
+        if not late and r.random() < 0.3:
+            emptied = r.choice(ACCTS)
+            base, bstate = [o for o in base], dict(bstate)
+            hb = sum(1 for o in base if o.startswith("commit"))
+            keep = [t for t in bstate if t[0] == emptied and t[1] in ("nonce", "code")]
+            if not keep:
+                base += [f"setbal {emptied} 5", "finalise", "flush", f"commit {hb + 1}", f"setbal {emptied} 0", "finalise", "flush", f"commit {hb + 2}"]
+                bstate[(emptied, "bal")] = 0
+                touch = r.choice([[f"addbal {emptied} 7", f"addbal {emptied} -7"],
+                                  ["snap", f"setbal {emptied} 9", "revert 0", "finalise"],
+                                  [f"bal {emptied}", f"nonce {emptied}"]])
+            else:
+                emptied = None
         hbase = sum(1 for o in base if o.startswith("commit"))
         # only real changes relative to the committed base count as changes
         cs = {t: v for t, v in change_set(r, bstate).items() if bstate.get(t) != v}
+        if emptied:
+            cs = {t: v for t, v in cs.items() if not (t[0] == emptied and t[1] in ("bal", "nonce", "code"))}
         cs.update(forced)
         if not cs:
             cs = {("a2", "k", "xy"): "zz"} if bstate.get(("a2", "k", "xy")) != "zz" else {("a2", "k", "xy"): "w"}
@@ -142,6 +162,8 @@ def gen_state(rng, n, tier):
             cs3[("a0", "bal")] = 12345
         ops = []
         tags = {"perturb:" + kind}
+        if emptied:
+            tags.add("emptied-account-touch")
         for i, (c, order, extra) in enumerate([(cs, order1, "plain"), (cs, order2, "shuffled+reads"), (cs3, list(cs3), "perturbed")]):
             ops.append("open")
             late_here = late and extra == "shuffled+reads"
@@ -218,6 +240,7 @@ def gen_state(rng, n, tier):
             by_delta = (extra == "shuffled+reads" and variant == "balance-by-delta") or (extra == "perturbed" and r.random() < 0.4)
             if by_delta and any(t[1] == "bal" for t in c):
                 tags.add("balance-by-delta:" + extra)
+            ops += touch
             ops += ops_of(c, order, bstate, delta=by_delta)
             if late_here:
                 ops.append(base[-1])          # the commit of the previous block arrives only now
